@@ -265,3 +265,6 @@ def run(ctx):
     # ------------------------------------------------------------------ OPEN-FAIL (shared with C16)
     from rules.C16 import open_fail
     open_fail(ctx, prog)
+
+    from engine.fdvalid import state_pair
+    state_pair(ctx, prog)       # a rejecting return must not leave the descriptors swapped (NO-EFFECT for the failed open)
